@@ -67,7 +67,7 @@ theorem detect_flipNullable (cfg : Cfg) (a : Schema) (hwf : WF a) (hok : SchemaO
 /-- **type changed to a different type family** (type comparison on) -/
 theorem detect_changeType (cfg : Cfg) (hct : cfg.compareType = true) (a : Schema) (hwf : WF a) (hok : SchemaOk cfg a)
     (t0 : Table) (ht0 : t0 ∈ a) (c0 : Col) (hc0 : c0 ∈ t0.cols) (ty : MdTy)
-    (hk : known (ddlTy c0.ty) = true) (hfam : family (ddlTy c0.ty) ≠ family (ddlTy ty)) :
+    (hk : known (declTy c0.ty) = true) (hfam : family (declTy c0.ty) ≠ family (ddlTy ty)) :
     detectOk a (.changeType t0.name c0.name ty)
       ((diff cfg (reflect (createAll a)) ((Mutation.changeType t0.name c0.name ty).apply a)).map summary) = true := by
   apply detectOk_of
@@ -77,7 +77,7 @@ theorem detect_changeType (cfg : Cfg) (hct : cfg.compareType = true) (a : Schema
     refine ⟨Op.modifyType t0.name c0.name ty, ?_, rfl⟩
     simp only [Mutation.apply]
     rw [mem_diff_column cfg a hwf hok t0 ht0 c0 hc0 (fun k => { k with ty := ty }) (fun _ => rfl)]
-    have := type_family_detected (ddlTy c0.ty) (ddlTy ty) hk hfam
+    have := type_family_detected (declTy c0.ty) (ddlTy ty) hk hfam
     simp [compareCol, reflectCol, createCol, hct, this]
   · intro op hop
     simp only [Mutation.apply] at hop
@@ -189,8 +189,8 @@ theorem detect_dropColumn (cfg : Cfg) (a : Schema) (hwf : WF a) (hok : SchemaOk 
 
 /-- the hypotheses are satisfiable and the recogniser rejects a wrong report -/
 def base : Schema :=
-  [{ name := "t", cols := [{ name := "id", ty := ⟨.Integer, []⟩, nullable := false, pk := true },
-                           { name := "c", ty := ⟨.String, [20]⟩, nullable := true }] }]
+  [{ name := "t", cols := [{ name := "id", ty := { fam := .Integer, args := [] }, nullable := false, pk := true },
+                           { name := "c", ty := { fam := .String, args := [20] }, nullable := true }] }]
 
 example : detectOk base (.flipNullable "t" "c") [⟨.modifyNullable, .column "t" "c"⟩] = true := by decide
 example : detectOk base (.flipNullable "t" "c") [] = false := by decide
@@ -520,7 +520,7 @@ inductive Applicable (cfg : Cfg) (a : Schema) : Mutation → Prop
   | dropColumn (t0 : Table) (c0 : Col) : t0 ∈ a → c0 ∈ t0.cols → Applicable cfg a (.dropColumn t0.name c0.name)
   | flipNullable (t0 : Table) (c0 : Col) : t0 ∈ a → c0 ∈ t0.cols → Applicable cfg a (.flipNullable t0.name c0.name)
   | changeType (t0 : Table) (c0 : Col) (ty : MdTy) : t0 ∈ a → c0 ∈ t0.cols → cfg.compareType = true →
-      known (ddlTy c0.ty) = true → family (ddlTy c0.ty) ≠ family (ddlTy ty) → Applicable cfg a (.changeType t0.name c0.name ty)
+      known (declTy c0.ty) = true → family (declTy c0.ty) ≠ family (ddlTy ty) → Applicable cfg a (.changeType t0.name c0.name ty)
   | changeDefault (t0 : Table) (c0 : Col) (d : Option Dflt) : t0 ∈ a → c0 ∈ t0.cols → cfg.compareDefault = true →
       changedDefault c0.dflt d → Applicable cfg a (.changeDefault t0.name c0.name d)
   | addIndex (t0 : Table) (ix : Ix) : t0 ∈ a → ix.name ∉ namedNames t0 → Applicable cfg a (.addIndex t0.name ix)
@@ -587,8 +587,8 @@ theorem base_wf : WF base := by
 def its : List Char := ['i', 't', '\'', 's']
 
 def witness : Schema :=
-  [{ name := "t", cols := [{ name := "c", ty := ⟨.String, [20]⟩, nullable := true, dflt := some (.str its) },
-                           { name := "r", ty := ⟨.Integer, []⟩, nullable := true }] }]
+  [{ name := "t", cols := [{ name := "c", ty := { fam := .String, args := [20] }, nullable := true, dflt := some (.str its) },
+                           { name := "r", ty := { fam := .Integer, args := [] }, nullable := true }] }]
 
 theorem witness_wf : WF witness := by
   constructor
@@ -605,7 +605,7 @@ theorem witness_diff :
   simp [diff, on, witness, Mutation.apply, updT, updC, reflect, createAll, createTable, reflectTable, findTable,
     sortTablesByName, compareTable, addedCols, alteredCols, removedCols, compareIxUq, compareFks, namedOf,
     createCol, reflectCol, findRCol, compareCol, sortNames, Lemmas.Diff.compareType_self, reflTy, known,
-    knownName, ddlTy, h, reflectDefault] at *
+    knownName, ddlTy, declTy, h, reflectDefault] at *
   rfl
 
 /-- **F9 seen through C07**: flipping the nullability of column `r` also reports the untouched
@@ -614,9 +614,9 @@ theorem detect_counterexample : ¬ detect_statement := by
   intro hs
   have hm : Applicable on witness (.flipNullable "t" "r") :=
     Applicable.flipNullable (cfg := on) (a := witness)
-      { name := "t", cols := [{ name := "c", ty := ⟨.String, [20]⟩, nullable := true, dflt := some (.str its) },
-                              { name := "r", ty := ⟨.Integer, []⟩, nullable := true }] }
-      { name := "r", ty := ⟨.Integer, []⟩, nullable := true } (by simp [witness]) (by simp)
+      { name := "t", cols := [{ name := "c", ty := { fam := .String, args := [20] }, nullable := true, dflt := some (.str its) },
+                              { name := "r", ty := { fam := .Integer, args := [] }, nullable := true }] }
+      { name := "r", ty := { fam := .Integer, args := [] }, nullable := true } (by simp [witness]) (by simp)
   have := hs on witness witness_wf _ hm
   rw [witness_diff] at this
   revert this
